@@ -100,3 +100,33 @@ inductive Reach (fixed : Bool) (s0 : Par) : Par → Prop
 /-- decreases with every step: no run is longer than `measure init` -/
 def Par.measure (s : Par) : Nat :=
   4 * s.src + 2 * s.holding + s.idle + (if s.mainDone then 0 else 1) + (if s.collector then 1 else 0)
+
+/-! ## Process model of `multiUse` (`/repo/value/multiUse.go`)
+
+`List.MultiUse` checks the entries of its map (a closure of one argument each), starts one consumer goroutine per entry
+and then RUNS the source into them (`iterator.CopyProducer`): a consumer ends when the source was run to its end — with
+the items, or with the error item a failing or panicking source is turned into (`recoverProducer`). A consumer that was
+started for a source that is never run waits forever. -/
+namespace P2.Proc
+
+/-- what `MultiUse` leaves behind: consumers started, and whether the source was run -/
+structure MU where
+  started : Nat
+  ran     : Bool
+  deriving DecidableEq, Repr
+
+/-- every consumer has ended -/
+def MU.clean (s : MU) : Bool := s.ran || s.started == 0
+
+/-- the code: validate EVERY entry first (`true` = a closure of one argument), return on the first invalid one; only
+then start the consumers and run the source (whatever the source does: `run` always comes back) -/
+def multiUse (entries : List Bool) : MU :=
+  if entries.all id then { started := entries.length, ran := true } else { started := 0, ran := false }
+
+/-- the code of a seeded change: each consumer is started as soon as its entry was found valid -/
+def multiUseEager : List Bool → Nat → MU
+  | [], n => { started := n, ran := true }
+  | true :: rest, n => multiUseEager rest (n + 1)
+  | false :: _, n => { started := n, ran := false }
+
+end P2.Proc
